@@ -61,6 +61,10 @@ def dmrg_matvec_python(A, x, y0 = None, nswp = 20, eps = 1e-12, rmax = 32768, ki
     Returns:
         TT: the result.
     """
+    if len(x.N) == 1:
+        # a single core: there is no bond to sweep over and the product is exact
+        return A @ x
+
     if y0 == None:
         y0 = torchtt.random(A.M,2, dtype=A.cores[0].dtype, device = A.cores[0].device)
 
@@ -251,6 +255,10 @@ def dmrg_hadamard_python(z, x, y0 = None, nswp = 20, eps = 1e-12, rmax = 32768, 
     Returns:
         TT: the result.
     """
+    if len(x.N) == 1:
+        # a single core: there is no bond to sweep over and the product is exact
+        return z * x
+
     if y0 == None:
         y0 = torchtt.random(z.N, 2, dtype = z.cores[0].dtype, device = z.cores[0].device)
     y_cores = y0.cores.copy()
